@@ -196,7 +196,9 @@ pub fn build<K: GK>(g: &G, env: &Env, cx: &Ctx) -> K {
             let mut env2 = env.clone();
             let mut lvars = vec![];
             for v in vars {
-                let lv: PTerm = LTerm::var("f");
+                // names of several shapes, reused across scopes: identity must never depend on them
+                const NAMES: [&str; 7] = ["f", "_t", "x1", "__h", "Tmp", "q", "_0"];
+                let lv: PTerm = LTerm::var(NAMES[*v as usize % NAMES.len()]);
                 env_set(&mut env2, *v, lv.clone());
                 lvars.push(lv);
             }
